@@ -124,7 +124,7 @@ theorem op_step {f : Forest} {e nm : Nat} {N A S : List HTree} (h : MInv f e nm 
     exact ⟨_, _, st.inv, hok, step_views h st (.clear k) rfl rfl⟩
   | insertNode k v =>
     obtain ⟨hloc1, hroot1, _, hbelow1⟩ := located_newNode h.loc h.below v
-    have h1 : MInv (f.newNode v).1 e nm N A S := ⟨hloc1, h.sect, h.uniq, hbelow1⟩
+    have h1 : MInv (f.newNode v).1 e nm N A S := ⟨hloc1, h.sect, h.uniq, hbelow1, h.leaf⟩
     obtain ⟨s', roots0, st, hok, hmap, _, _, _⟩ := appendEntryNode_step h1 k f.next v hwf hroot1
     have habs : ∀ k', abs k' (f.newNode v).1 e = abs k' f e := by
       intro k'; rw [h1.abs_eq, h.abs_eq]
